@@ -667,7 +667,7 @@ func c13ReplLong(c *core.Ctx, k int) *core.Result {
 	res.Input = core.Trunc(text, 300)
 	res.Hash = core.HashOf(text)
 	zygoBin := filepath.Join(c.BinDir, "zygo")
-	cmd := exec.Command(zygoBin, "-no-liner", "-quiet")
+	cmd := core.DieWithParent(exec.Command(zygoBin, "-no-liner", "-quiet"))
 	cmd.Stdin = strings.NewReader(text + "\n")
 	cmd.Dir = c.Work
 	os.MkdirAll(c.Work, 0755)
